@@ -13,7 +13,7 @@ macro "inv_ev_C" : tactic => `(tactic| (
   all_goals (try simp only [beq_iff_eq, Bool.or_eq_true] at *)
   all_goals (first | exact h | (
     obtain ⟨h1, h2, h3, h4, h5, h6, h7⟩ := h
-    constructor <;> (try simp only [upd'_apply, upd_apply, setFlavTid_phase, setFlavTid_guard, setFlavTid_pay, setFlavTid_fl, setFlavTid_starts, setFlavTid_tid, setFlavTid_latch, setFlavTid_rtask, setFlavTid_gather, setFlavTid_stopReq, setFlavTid_flushed, setFlavTid_execs, setFlavTid_failedQuiet, setFlavTid_pids]) <;> grind [step.upd', upd, St.quiet, St.closing, Out.failing, Out.loopKiller, St.setFlavTid, St.tidOK, St.coBusy, Flav.isCo, Phase.restartable, Latch.isFailed, PSt.notStarted]))))
+    constructor <;> (try simp only [upd'_apply, upd_apply, setFlavTid_phase, setFlavTid_guard, setFlavTid_pay, setFlavTid_fl, setFlavTid_starts, setFlavTid_tid, setFlavTid_latch, setFlavTid_rtask, setFlavTid_gather, setFlavTid_stopReq, setFlavTid_flushed, setFlavTid_execs, setFlavTid_failedQuiet, setFlavTid_holder, setFlavTid_pids]) <;> grind [step.upd', upd, St.quiet, St.closing, Out.failing, Out.loopKiller, St.setFlavTid, St.tidOK, St.coBusy, Flav.isCo, Phase.restartable, Latch.isFailed, PSt.notStarted]))))
 
 theorem InvC_acceptBegin (s s' : St) (r : Nat) (h : InvC s) (hs : step s (.acceptBegin r) = some s') : InvC s' := by
   inv_ev_C
@@ -78,6 +78,12 @@ theorem InvC_gatherDone (s s' : St)  (h : InvC s) (hs : step s .gatherDone = som
 theorem InvC_discard (s s' : St) (p : Nat) (h : InvC s) (hs : step s (.discard p) = some s') : InvC s' := by
   inv_ev_C
 
+theorem InvC_hold (s s' : St) (p h' : Nat) (h : InvC s) (hs : step s (.hold p h') = some s') : InvC s' := by
+  inv_ev_C
+
+theorem InvC_dropUnit (s s' : St) (p : Nat) (h : InvC s) (hs : step s (.dropUnit p) = some s') : InvC s' := by
+  inv_ev_C
+
 theorem InvC_step (s s' : St) (e : Ev) (h : InvC s) (hs : step s e = some s') : InvC s' := by
   cases e with
   | acceptBegin r => exact InvC_acceptBegin s s' r h hs
@@ -101,5 +107,7 @@ theorem InvC_step (s s' : St) (e : Ev) (h : InvC s) (hs : step s e = some s') : 
   | gatherRaise f => exact InvC_gatherRaise s s' f h hs
   | gatherDone  => exact InvC_gatherDone s s'  h hs
   | discard p => exact InvC_discard s s' p h hs
+  | hold p h' => exact InvC_hold s s' p h' h hs
+  | dropUnit p => exact InvC_dropUnit s s' p h hs
 
 end Cobald.Runtime
